@@ -138,3 +138,71 @@ Theorem C19_refuted_before_fix :
   end.
 Proof. exact unrepaired_ignores_min. Qed.
 Print Assumptions C19_refuted_before_fix.
+
+(* ---- explicit skip counts: Model/SkipN.v, the repetition / sequence combinators with `[Skip; SKIP]` for ANY count and ANY
+   never-failing skip node (the main model's skip argument is off / on / inherited = what the generator emits).  [sparse] and
+   [scheck] transcribe the parse path and the check path separately; [smatch] / [sfails] = "some fuel gives this result"
+   (well defined: SkipNProofs.sparse_mono, smatch_fun); [units_from] = the chain of units: the first element without skips, every
+   further element preceded by exactly k consecutive never-failing skip matches ------------------------------------------------- *)
+From PT Require Import Model.SkipN Proofs.SkipNProofs.
+
+(* parse and check agree, for every node and every skip count *)
+Theorem C19_skipn_check_is_parse : forall f s n pos, scheck f s n pos = pos_of (sparse f s n pos).
+Proof. exact check_is_parse. Qed.
+Print Assumptions C19_skipn_check_is_parse.
+
+Theorem C19_skipn_cursor : forall f s n pos p v,
+  pos <= length s -> sparse f s n pos = SOk (p, v) -> pos <= p <= length s.
+Proof. exact cursor_monotone. Qed.
+Print Assumptions C19_skipn_cursor.
+
+(* between MIN and MAX elements; every element carries exactly k skipped values, the first one the defaults (nothing is skipped
+   in front of the first element) *)
+Theorem C19_skipn_rep_bounds : forall f s el skip k mn mx pos p items,
+  wf_snode (SRep el skip k mn mx) = true ->
+  sparse f s (SRep el skip k mn mx) pos = SOk (p, VRep items) ->
+  mn <= length items /\ (forall m, mx = Some m -> length items <= m) /\
+  Forall (fun it => length (fst it) = k) items /\
+  (forall it its, items = it :: its -> fst it = repeat (default_val skip) k).
+Proof. exact rep_bounds. Qed.
+Print Assumptions C19_skipn_rep_bounds.
+
+(* greedy, stops at MAX, never keeps a skip that is not followed by a matched element: the result is exactly the chain of units
+   that ends because MAX is reached or because the NEXT unit (k skips, then the element) fails at its element -- and the cursor is
+   where the last matched element ended *)
+Theorem C19_skipn_rep_match_iff : forall s el skip k mn mx pos p items, wf_snode (SRep el skip k mn mx) = true ->
+  (smatch s (SRep el skip k mn mx) pos p (VRep items) <->
+   units_from (smatch s) (smatch_nf s) skip k el 0 pos items p /\ mn <= length items /\
+   (forall m, mx = Some m -> length items <= m) /\
+   (mx = Some (length items) \/ unit_fails (smatch_nf s) (sfails s) skip k el (length items) p)).
+Proof. exact rep_match_iff. Qed.
+Print Assumptions C19_skipn_rep_match_iff.
+
+(* fails exactly when fewer than MIN units match *)
+Theorem C19_skipn_rep_fails_iff : forall s el skip k mn mx pos, wf_snode (SRep el skip k mn mx) = true ->
+  (sfails s (SRep el skip k mn mx) pos <->
+   exists items p, units_from (smatch s) (smatch_nf s) skip k el 0 pos items p /\ length items < mn /\
+     (forall m, mx = Some m -> length items <= m) /\
+     (mx = Some (length items) \/ unit_fails (smatch_nf s) (sfails s) skip k el (length items) p)).
+Proof. exact rep_fails_iff. Qed.
+Print Assumptions C19_skipn_rep_fails_iff.
+
+(* sequences: exactly the concatenation they denote, k skips in front of every element but the first *)
+Theorem C19_skipn_seq_match_iff : forall s els skip k pos p v,
+  smatch s (SSeq els skip k) pos p v <->
+  exists items, v = VSeq items /\ seq_from (smatch s) (smatch_nf s) skip k 0 els pos items p.
+Proof. exact seq_match_iff. Qed.
+Print Assumptions C19_skipn_seq_match_iff.
+
+Theorem C19_skipn_seq_fails_iff : forall s els skip k pos, wf_snode (SSeq els skip k) = true ->
+  (sfails s (SSeq els skip k) pos <-> seq_fails (smatch s) (smatch_nf s) (sfails s) skip k 0 els pos).
+Proof. exact seq_fails_iff. Qed.
+Print Assumptions C19_skipn_seq_fails_iff.
+
+(* non-vacuity ("a  a a" with skip = " "?, SKIP = 2: three elements, offset 6, on both paths), and the seeded variant that matches
+   the skip once instead of k times is NOT the parse path *)
+Theorem C19_skipn_example :
+  scheck_once 50 in_a__a_a (SRep a_ blank 2 0 None) 0 = SOk 1 /\
+  scheck 50 in_a__a_a (SRep a_ blank 2 0 None) 0 = SOk 6 /\ pos_of (sparse 50 in_a__a_a (SRep a_ blank 2 0 None) 0) = SOk 6.
+Proof. exact once_differs. Qed.
+Print Assumptions C19_skipn_example.
